@@ -84,14 +84,9 @@ def models():
         ok = bool(all(1 + s * wu > 0 for s in slopes)) if np.isfinite(wu) else False
         out = {"invertible": ok}
         if not ok:      # which input made it fail (identifies known findings by their specific cause)
-            if not np.any(w != 0):
-                out["cause"] = "planar weight w == 0: 0/0 in the constraint of u"
-            elif float(w @ ur) <= -10.0 and np.isfinite(wu) and min(abs(1 + sl * wu) for sl in slopes) < 2e-3:
-                out["cause"] = "planar w.u so negative that w.u_hat rounds to -1 (softplus underflow / cancellation)"
-            elif max(slopes) > 1 and np.isfinite(wu) and wu > -1:
-                out["cause"] = "planar negative_slope > 1: w.u_hat > -1 does not give 1 + slope * w.u_hat > 0"
-            else:
-                out["cause"] = f"planar w.u_hat = {wu!r}"
+            from harness.c11_constraints import planar_cause
+            eps = 1.2e-7 if inner.weight.dtype == jnp.float32 else 2.3e-16
+            out["cause"] = planar_cause(w.astype(np.float64), ur.astype(np.float64), wu, slopes, eps)
         return out
     out["Planar(tanh)"] = (bj.Planar(k, dim=3), ["invertible"], obs_planar)
     out["Planar(leaky 0.1)"] = (bj.Planar(k, dim=3, negative_slope=0.1), ["invertible"], obs_planar)
@@ -259,6 +254,12 @@ def rejections(rep: Report):
     bad["Permute(repeated index)"] = lambda: bj.Permute(jnp.asarray([0, 0, 2]))
     bad["Permute(out of range)"] = lambda: bj.Permute(jnp.asarray([0, 1, 3]))
     bad["Permute(negative)"] = lambda: bj.Permute(jnp.asarray([-1, 0, 1]))
+    bad["Permute(negative entry, 0 missing)"] = lambda: bj.Permute(jnp.asarray([-1, 1, 2, 3]))
+    bad["Permute(all shifted by one)"] = lambda: bj.Permute(jnp.asarray([1, 2, 3]))
+    bad["Permute(2-D, negative entry, 0 missing)"] = lambda: bj.Permute(jnp.asarray([[-1, 5, 3], [1, 2, 4]]))
+    bad["Permute(2-D, repeated index)"] = lambda: bj.Permute(jnp.asarray([[0, 1], [1, 3]]))
+    bad["Permute(one entry too large, one missing)"] = lambda: bj.Permute(jnp.asarray([0, 1, 2, 4]))
+    bad["Permute(-n wraps to 0)"] = lambda: bj.Permute(jnp.asarray([-3, 1, 2]))
     for name, ctor in bad.items():
         rep.count(1, ("reject", name))
         try:
@@ -303,6 +304,9 @@ def main():
     rep.set("trace_validation", stats)
     if traces:
         rep.sample({"kind": "code->spec history", "trace": traces[3]}, 3)
+    from harness import c11_constraints
+    ccases = c11_constraints.run_spec(rep)
+    c11_constraints.replay(rep, ccases, thorough)
     round_trips(rep)
     rejections(rep)
     rep.set("rule", "one trace per (model, dtype, TLC history | optimiser); one case per constructor round trip and per "
